@@ -593,7 +593,7 @@ PROPS["C07"]["assumptions"] += [A_TLS, A_HEAP, A_SWITCH, "rely at join's blockin
 PROPS["C02"]["kani"] += JOINH
 PROPS["C07"]["verus_units"] = ["storage"]
 PROPS["C07"]["scope"] = ("StorageMap::{new,init,pop} proved unbounded on the extracted code: destruction order == initialisation order, each slot "
-                         "handed out exactly once, popped slots stay as tombstones (V); join waiter registration (K); JoinHandle::join on a real ExecutionState (Kb)")
+                         "handed out exactly once, popped slots stay as tombstones (V); join waiter registration (K); JoinHandle::join (finished / running / woken early) and thread_fn without thread-local values on a real ExecutionState (Kb)")
 PROPS["C07"]["assumptions"] += ["A-key: StorageKey's derived Hash/Eq obey the HashMap key model (the verified text uses a u64 key)",
                                 "A-std: vstd's specifications of HashMap / VecDeque"]
 PROPS["C07"]["not_decided"] = ["thread_fn with thread-local values (destructors before publication) and LocalKey::try_with (HashMap under CBMC: no result in 25 min)",
@@ -609,8 +609,10 @@ PROPS["C06"]["kani"] += DROP_C06
 PROPS["C02"]["overlay_files"] = STD_OVERLAY
 PROPS["C02"]["assumptions"] += [A_SWITCH]
 PROPS["C02"]["scope"] = ("the per-operation sufficient condition: exactly one choice point precedes the effect of every contracted visible operation "
-                         "(atomics for all values, Mutex try_lock/lock: K; semaphore try_acquire, Acquire::poll: Kb); omitted points are legal "
-                         "(unfair first poll skips the choice point only when it blocks); exit-truncation predicate (Kb)")
+                         "(atomics for all values, Mutex try_lock/lock: K; semaphore try_acquire, Acquire::poll incl. the fair first poll, park / "
+                         "Thread::unpark / yield_now / JoinHandle::join, mpsc endpoint Drop: Kb); omitted points are legal (unfair first poll and "
+                         "join skip the pre-block point, park skips it only with a pending token); exit-truncation predicate (Kb). The mpsc Drop "
+                         "obligations FAIL on the unchanged tree: known finding F5 (KNOWN_FINDINGS.txt)")
 PROPS["C02"]["not_decided"] = ["the meta-theorem `every sequentially consistent outcome is produced by some schedule` (exists over schedules, forall programs)",
                                "operations not under contract: Once, spawn, Condvar",
                                "Barrier::wait's legality condition (seeded mutant C02-barrier-will-block-off-by-one is NOT caught: harness withdrawn, see C05)"]
